@@ -17,7 +17,8 @@ static void completeness_case(Ctx &ctx, size_t entry) {
   if (!r.accepted) ctx.fail(std::string("completeness/") + e.name + "/honest-proof-rejected", s->desc.str() + (r.threw ? " threw: " + r.what : "") + (r.stalled ? " (stalled)" : ""));
 }
 // every registry entry in turn (index mod registry size), parameters generated
-VF_ENUM(honest_proof_accepted, 27 * 45, 27 * 900) { size_t i = ctx.c.raw(); completeness_case(ctx, i % scenario_registry().size()); }
+VF_ENUM(honest_proof_accepted, 27 * 45, 27 * 900) { size_t i = ctx.c.raw(); completeness_case(ctx, i % REGISTRY_BASE); }
+VF_ENUM(honest_proof_accepted_class_level, 2 * 45, 2 * 900) { size_t i = ctx.c.raw(); completeness_case(ctx, REGISTRY_BASE + i % (scenario_registry().size() - REGISTRY_BASE)); }
 
 // Rabin key validity proof: generated keys (with NIZK) check() fine, as secret and as public key
 VF_ENUM(rabin_key_check, 9, 27) {
